@@ -117,6 +117,8 @@ def _dw_case(case):
         if not rotated and config.get("version") in (2, 3):
             # the alternative coarsening versions 2 and 3 (no clamp at the minimum level, coarsening shared between the dimensions)
             f["key"]["alternative_version"] = config["version"]
+            f["key"]["lmin_ge_2"] = config["lmin"] >= 2
+            f["key"]["span_ge_2"] = config["lmax"] - config["lmin"] >= 2
     out = {"failures": fails, "canon": dw.canon(sa), "nontrivial": len(history) > 0,
            "outcome": tuple(round(float(x), 9) for x in res[:1])}
     if case.get("want_events", False):
@@ -298,7 +300,7 @@ def configs(tier):
         dwc(3, 1, 2, 6, False, True, 1, 1)
         # the alternative coarsening versions with lmax - lmin = 2 and with d = 3, lmin = 2 (refinement in all dimensions at once)
         for version in (2, 3, 7, 8):
-            dwc(2, 1, 3, version, False, True, 2, 1, towards=[[0.99, 0.99]])
+            dwc(2, 1, 3, version, False, True, 4, 1, towards=[[0.99, 0.99]])
             dwc(3, 2, 3, version, False, True, 1, 1)
         # rarely used public constructor options of the dimension-wise strategy
         dwc(2, 1, 2, 6, False, True, 2, 1, dim_adaptive=False)
